@@ -44,11 +44,12 @@ def emit_nodes(nodes, owner_name, elems_echo=True):
             _, cname, kwargs, only, bk, body, dyn = n
             head = ('"dynamic" is="%s"' % cname) if dyn else '"%s"' % cname
             flags = " only" if only else ""
+            tag = world.component_tag()
             if bk == "none":
-                out.append("{%% component %s%s%s / %%}" % (head, _kw(kwargs), flags))
+                out.append("{%% %s %s%s%s / %%}" % (tag, head, _kw(kwargs), flags))
             else:
-                out.append("{%% component %s%s%s %%}%s{%% endcomponent %%}" % (
-                    head, _kw(kwargs), flags, emit_nodes(body, owner_name)))
+                out.append("{%% %s %s%s%s %%}%s{%% end%s %%}" % (
+                    tag, head, _kw(kwargs), flags, emit_nodes(body, owner_name), tag))
         elif k == "fill":
             _, nameexpr, da, df, body = n
             head = '"%s"' % nameexpr[1] if nameexpr[0] == "lit" else "name=%s" % _expr(nameexpr)
@@ -121,11 +122,10 @@ def boom_class(ok=False):
     return _BOOM["ok" if ok else "fail"]
 
 
-def _build_boom():
+def _build_boom(default_registry):
     if _BOOM:
         return
     from django_components import Component
-    from django_components import registry as default_registry
 
     def inner_gcd(self, **kwargs):
         raise BoomError("nested stand-alone render fails")
@@ -134,12 +134,14 @@ def _build_boom():
                                                   "__module__": "sim.generated"})
     default_registry.register("genboominner", inner)
     _BOOM["fail"] = type("GenBoom", (Component,), {
-        "template": '<div>{% component "genboominner" / %}</div><span>{% component "genboominner" / %}</span>',
+        "template": '<div>{% component "genboominner" / %}</div><span>{% component "genboominner" / %}</span>'.replace(
+            "component", world.component_tag()),
         "__module__": "sim.generated"})
     leaf = type("GenOkLeaf", (Component,), {"template": "<b>ok</b>", "__module__": "sim.generated"})
     default_registry.register("genokleaf", leaf)
     _BOOM["ok"] = type("GenOk", (Component,), {
-        "template": '{% component "genokleaf" / %}<i>{% component "genokleaf" / %}</i>', "__module__": "sim.generated"})
+        "template": '{% component "genokleaf" / %}<i>{% component "genokleaf" / %}</i>'.replace(
+            "component", world.component_tag()), "__module__": "sim.generated"})
 
 
 def build_classes(prog, registry=None, module="sim.generated"):
@@ -147,10 +149,10 @@ def build_classes(prog, registry=None, module="sim.generated"):
     from django_components import Component
     from django_components import registry as default_registry
 
-    reg = registry or default_registry
+    reg = registry or world.current_registry() or default_registry
     classes = {}
     if any(cd.get("tryfail") or cd.get("nested_ok") for cd in prog["comps"]):
-        _build_boom()
+        _build_boom(reg)
     for i, cd in reversed(list(enumerate(prog["comps"]))):
         name = cd["name"]
         src = emit_nodes(cd["tmpl"], name if cd.get("echo_id") else None)
